@@ -523,6 +523,28 @@ func c19Gen(t *rapid.T) C19Case {
 			c.A = mk("ca")
 		}
 	}
+	// A burst at one instant: the same record twice with another one between them (a retry, a
+	// message, the retry again - a log rotated in mid-write). Equal records are told apart by
+	// how often they occur, not at all by a filter.
+	if len(c.Recs) > 0 && rapid.IntRange(0, 4).Draw(t, "burst-at-one-instant") == 0 {
+		a := c.Recs[rapid.IntRange(0, len(c.Recs)-1).Draw(t, "burst-a")]
+		b := c.Recs[rapid.IntRange(0, len(c.Recs)-1).Draw(t, "burst-b")]
+		ts := c.Recs[len(c.Recs)-1].TS + 1e9
+		for _, r := range c.Recs {
+			if r.TS >= ts {
+				ts = r.TS + 1e9
+			}
+		}
+		for _, r := range []model.Rec{a, b, a, a} {
+			cp := r
+			cp.TS = ts
+			cp.Labels = model.LabelMap{}
+			for k, v := range a.Labels { // one stream: the labels of a, whatever the line
+				cp.Labels[k] = v
+			}
+			c.Recs = append(c.Recs, cp)
+		}
+	}
 	c.Caps = mockstore.Caps{Label: rapid.IntRange(0, 15).Draw(t, "caps-label"), Line: rapid.IntRange(0, 15).Draw(t, "caps-line")}
 	return c
 }
